@@ -25,6 +25,7 @@ class Worker:
         env = dict(os.environ)
         env["PYTHONHASHSEED"] = str(hashseed)
         env["PYTHONPATH"] = HOME
+        self.hashseed = hashseed
         self.p = subprocess.Popen(
             [PY, "-m", "vp.engine", prop], stdin=subprocess.PIPE, stdout=subprocess.PIPE,
             stderr=subprocess.DEVNULL, cwd=HOME, env=env, text=True, bufsize=1,
@@ -85,8 +86,12 @@ def run_pool(prop, specs, jobs, progress=True):
                 spec = q.get_nowait()
             except queue.Empty:
                 break
+            hseed = (spec.get("params") or {}).get("hashseed", 0) if isinstance(spec.get("params"), dict) else 0
+            if w is not None and w.hashseed != hseed:
+                w.kill()
+                w = None
             if w is None:
-                w = Worker(prop, spec.get("hashseed", idx % 3))
+                w = Worker(prop, hseed)
                 if w.ready is None:
                     res = {"id": spec["id"], "verdict": "error", "cx_message": "worker failed to start",
                            "params": spec.get("params"), "paths": 0, "reached": 0, "z3_queries": 0,
@@ -144,6 +149,10 @@ def run_replay(prop, params, fail, outdir, rid):
 def replay_file(path):
     env = dict(os.environ)
     env["PYTHONPATH"] = HOME
+    try:
+        env["PYTHONHASHSEED"] = str((json.load(open(path)).get("params") or {}).get("hashseed", 0))
+    except Exception:
+        env["PYTHONHASHSEED"] = "0"
     env.pop("MARSCHALL_LAB_GAFTOOLS_VERIF", None)
     try:
         p = subprocess.run([PY, "-m", "vp.replay", path], capture_output=True, text=True, cwd=HOME,
